@@ -2626,7 +2626,9 @@ class Convex:
             elif self.xtype == 'I':
                 output = self.multiplier*self.sign*abs(value_in).max() + value_out
             elif self.xtype == 'S':
-                output = self.multiplier**2*self.sign*(value_in**2) + value_out
+                # the argument is stored flattened: back to the shape of the array
+                squares = (value_in**2).reshape(np.shape(self.affine_out))
+                output = self.multiplier**2*self.sign*squares + value_out
             elif self.xtype == 'Q':
                 output = self.multiplier**2*self.sign*(value_in**2).sum() + value_out
             elif self.xtype == 'X':
@@ -4752,7 +4754,8 @@ class DecConvex(Convex):
                     item += value_out
                     output.append(item)
                 elif self.xtype == 'S':
-                    output.append(self.multiplier**2*self.sign*(value_in**2) + value_out)
+                    squares = (value_in**2).reshape(np.shape(self.affine_out))
+                    output.append(self.multiplier**2*self.sign*squares + value_out)
                 elif self.xtype == 'Q':
                     item = self.multiplier**2*self.sign*(value_in**2).sum()
                     item += value_out
